@@ -2037,22 +2037,30 @@ def unroll(fn: ast.FunctionDef, repo: Optional[Repo] = None, ci: Optional[ClassI
                     env.pop(nm, None)
                 out.append(st)
                 continue
-            # --- compound statements: recurse, forget lists assigned inside
+            # --- compound statements: recurse, forget lists assigned or mutated inside.  A list known before the statement is known
+            # inside a branch only as far as that branch itself goes (each nested block works on its own copy), and a loop body
+            # starts without the lists it changes (its second iteration sees what the first one did).
             st = copy.copy(st)
+            mutated = assigned_names([st]) | {c_.func.value.id for c_ in ast.walk(st) if isinstance(c_, ast.Call) and isinstance(c_.func, ast.Attribute)
+                                               and isinstance(c_.func.value, ast.Name)} | \
+                {t_.value.id for t_ in ast.walk(st) if isinstance(t_, ast.Subscript) and isinstance(t_.ctx, (ast.Store, ast.Del)) and isinstance(t_.value, ast.Name)}
+            if isinstance(st, (ast.For, ast.AsyncFor, ast.While)):
+                for k in mutated:
+                    env.pop(k, None)
             for fld in ("body", "orelse", "finalbody"):
                 if hasattr(st, fld) and isinstance(getattr(st, fld), list) and not isinstance(st, (ast.FunctionDef, ast.ClassDef)):
-                    setattr(st, fld, block(getattr(st, fld), env))
+                    setattr(st, fld, block(getattr(st, fld), dict(env)))
             if isinstance(st, ast.Try):
                 for h in st.handlers:
-                    h.body = block(h.body, env)
+                    h.body = block(h.body, dict(env))
             if isinstance(st, (ast.If, ast.While)):
                 st.test = expr_unroll(st.test, env)
             elif isinstance(st, (ast.For,)):
                 st.iter = expr_unroll(st.iter, env)
             elif not isinstance(st, (ast.With, ast.Try, ast.FunctionDef, ast.ClassDef)):
                 st = expr_unroll(st, env)
-            if isinstance(st, (ast.If, ast.For, ast.While, ast.With, ast.Try)):
-                for k in assigned_names([st]):
+            if isinstance(st, (ast.If, ast.For, ast.While, ast.With, ast.Try, ast.AsyncFor, ast.AsyncWith)):
+                for k in mutated:
                     env.pop(k, None)
             out.append(st)
         return out
